@@ -1,7 +1,7 @@
 #!/bin/bash
 # Run every registered check at the given tier (default quick) on the current tree.
 tier=${1:-quick}
-cd /verif
+cd "$(dirname "$(readlink -f "$0")")"
 rc=0
 for p in C07 C08 C15 C18 C19 C20 C21 C22 C23 C24; do
   ./check $p $tier > /tmp/check_$p.log 2>&1; r=$?
